@@ -163,6 +163,11 @@ func RandomStruct(r *Rand, c *TypeCfg, depth int) *schema.Struct {
 		nf = 0
 	}
 	used := map[uint16]bool{}
+	// id profile: some structs have no small id at all (every id above a base)
+	base := 0
+	if r.Chance(1, 10) {
+		base = []int{200, 1024, 2000, 4000}[r.Intn(4)]
+	}
 	for i := 0; i < nf; i++ {
 		var id uint16
 		for {
@@ -172,9 +177,12 @@ func RandomStruct(r *Rand, c *TypeCfg, depth int) *schema.Struct {
 			case r.Chance(1, 8):
 				id = uint16(r.Intn(65536))
 			default:
-				id = uint16(1 + r.Intn(40))
+				id = uint16(base + 1 + r.Intn(40))
 			}
 			if id > 4096 && (!c.BigIDs || !r.Chance(1, 6)) {
+				continue
+			}
+			if int(id) < base {
 				continue
 			}
 			if !used[id] {
